@@ -286,9 +286,11 @@ def run(tier, replay):
             missing = [c for c in CLASSES if s["classes"].get(c, 0) == 0]
             if missing:
                 tool_errors.append("vacuity guard: no replayed edge of class %s (%s)" % (missing, label))
-            if s["unknown_token_lengths"] < 64:
-                tool_errors.append("vacuity guard: only %d distinct lengths of unknown-token strings were tried (%s)"
-                                   % (s["unknown_token_lengths"], label))
+            # every proper prefix / suffix length of the tokens THIS tree issues (whatever their encoding), plus the empty
+            # string and one character more: at least as many distinct lengths as a token has characters
+            if s["unknown_token_lengths"] < s["token_len_min"]:
+                tool_errors.append("vacuity guard: only %d distinct lengths of unknown-token strings were tried for tokens of %d characters (%s)"
+                                   % (s["unknown_token_lengths"], s["token_len_min"], label))
             ctx.cov["evaluations"] += s["calls"]
             ctx.cov["traces_validated_against_impl"] += s["edges_run"] + s["walks"]
             if not pepper or len(peppers) == 1:
@@ -299,7 +301,7 @@ def run(tier, replay):
                          edges_executed=s["edges_run"], argon2_edges_executed=s["argon_edges_run"],
                          argon2_edges_not_sampled=s["argon_edges_skipped"], calls=s["calls"], walks=s["walks"],
                          walk_steps=s["walk_steps"], tokens_issued=s["tokens_issued"], mismatches=s["mismatches"],
-                         unknown_token_string_lengths_tried=s["unknown_token_lengths"], per_class=s["classes"])
+                         unknown_token_string_lengths_tried=s["unknown_token_lengths"], token_length=s["token_len_min"], per_class=s["classes"])
             eo = [m for m in s["first_refresh_ignores_expiry"] if m["class"] == "ExpiryOverflow"]
             if s["mismatches_expiry_overflow"] and eo:
                 m = eo[0]
@@ -429,7 +431,9 @@ def run(tier, replay):
         #     ... and cut to their first 32 characters (another encoding that cannot carry 256 bits) -> Capacity
         for name, fn, expect in (("nibble twice", lambda d: [d[(i | 1)] for i in range(len(d))], "NoTwinPos"),
                                  ("constant position", lambda d: d[:10] + [7] + d[11:], "NoConstantPos"),
-                                 ("half length", lambda d: d[:32], "Capacity")):
+                                 ("half length", lambda d: d[:len(d) // 2], "Capacity")):
+            if expect != "Capacity" and not all(len(r["d"]) == 64 and min(r["d"]) >= 0 for r in shape_recs):
+                continue    # the digit tests (and their self-tests) apply to 64-hex-digit tokens only
             bad = [{"d": fn(list(r["d"])), "c": fn(list(r["c"]))} for r in shape_recs]
             tb = shape_verdict(bad, work, "selftest")
             fl = [x for x in tb.prints if isinstance(x, dict) and "failed" in x]
